@@ -47,6 +47,7 @@ package datatype
 //@   ensures nonnil: err == nil ==> r != nil && valid(r)
 //@   ensures [C04] len_preserved: err == nil ==> dlen(r) == len(b)
 //@   ensures [C04] payload_preserved: err == nil ==> forall i int :: 0 <= i && i < len(b) ==> dbyte(r, i) == b[i]
+//@   ensures [C06] private: err == nil && !typeis(r, Grouped) ==> !viewsInto(r, b)
 //@ end
 //@
 //@ func Decode(Type, b) (r, err)
@@ -56,6 +57,7 @@ package datatype
 //@   ensures nonnil: err == nil ==> r != nil && valid(r)
 //@   ensures [C04] len_preserved: err == nil ==> dlen(r) == len(b)
 //@   ensures [C04] payload_preserved: err == nil ==> forall i int :: 0 <= i && i < len(b) ==> dbyte(r, i) == b[i]
+//@   ensures [C06] private: err == nil && !typeis(r, Grouped) ==> !viewsInto(r, b)
 //@ end
 
 //@
